@@ -31,147 +31,17 @@
 (*   sharedEnv          InitializeContext reuses one package-level env map *)
 (*   firstErrorOnly     an option error does not stop Evaluate             *)
 (***************************************************************************)
-EXTENDS Naturals, Integers, Sequences, FiniteSets, TLC
+EXTENDS FPRegistryCore
 
-CONSTANTS Mutant,
-          CSlots,       \* Compile slots (one Compile call in flight per slot)
+CONSTANTS CSlots,       \* Compile slots (one Compile call in flight per slot)
           VSlots,       \* goroutines (one Evaluate call in flight per slot)
           MaxTicks,     \* bound on Tick
           TZs,          \* process time-zone offsets a behaviour may run under
           CompileMenu,  \* CompileMenu[c]: the Compile calls slot c may make
           EvalMenu,     \* EvalMenu[v]: the Evaluate calls goroutine v may make
           Sequential,   \* TRUE: a Compile call begins only when the lower slots are finished
-          Grain         \* "node": one step per node; "gate": one step runs up to the next gate
-
-----------------------------------------------------------------------------
-(* PURE LAYER *)
-
-BuiltinNames == {"exists", "now"}      \* the model's stand-ins for the 73 built-ins
-ExperNames   == {"join"}               \* ... for the experimental table
-CustomNames  == {"vfA", "vfB"}
-AllNames     == BuiltinNames \cup ExperNames \cup CustomNames
-
-(* an implementation identity: who put this entry into a table *)
-Impl(src, c, k, n) == [src |-> src, c |-> c, k |-> k, n |-> n]
-BaseTable  == [n \in BuiltinNames |-> Impl("base", 0, 0, n)]
-ExperTable == [n \in ExperNames   |-> Impl("exper", 0, 0, n)]
-EmptyTable == [n \in {} |-> Impl("", 0, 0, "")]
-
-(* Compile options: [o, name]; o in add | exp | perm | xform *)
-OAdd(n) == [o |-> "add", name |-> n]
-OExp    == [o |-> "exp", name |-> ""]
-OPerm   == [o |-> "perm", name |-> ""]
-OXform  == [o |-> "xform", name |-> ""]
-
-(* patch.Compile appends its own transform to the caller's options *)
-EffOpts(call) == IF call.api = "patch" THEN Append(call.opts, OXform) ELSE call.opts
-
-Cfg0(t) == [tbl |-> t, perm |-> FALSE, xform |-> FALSE, errs |-> 0]
-
-(* One iteration of opts.ApplyOptions for Compile: option number k of call  *)
-(* id c.  Register fails on an existing name and changes nothing;           *)
-(* AddExperimentalFuncs never overrides; a second Transform is an error.    *)
-FoldCompileOpt(cfg, opt, c, k, ex) ==
-  CASE opt.o = "add" ->
-         IF opt.name \in DOMAIN cfg.tbl /\ Mutant # "registerOverwrites"
-           THEN [cfg EXCEPT !.errs = @ + 1]
-           ELSE [cfg EXCEPT !.tbl = (opt.name :> Impl("custom", c, k, opt.name)) @@ cfg.tbl]
-    [] opt.o = "exp"   -> [cfg EXCEPT !.tbl = cfg.tbl @@ ex]
-    [] opt.o = "perm"  -> [cfg EXCEPT !.perm = TRUE]
-    [] opt.o = "xform" -> IF cfg.xform THEN [cfg EXCEPT !.errs = @ + 1] ELSE [cfg EXCEPT !.xform = TRUE]
-
-RECURSIVE FoldCompileOpts(_, _, _, _, _)
-FoldCompileOpts(cfg, os, c, k, ex) ==
-  IF k > Len(os) THEN cfg ELSE FoldCompileOpts(FoldCompileOpt(cfg, os[k], c, k, ex), os, c, k + 1, ex)
-
-(* Programs: sequences of nodes [n, k, name].                               *)
-(*   gate k     a custom function the harness blocks on; yields Integer k   *)
-(*   env name   %name                                                       *)
-(*   now, today, tod   the three time functions                             *)
-(*   fn name    a call of function `name` (resolved at Parse)               *)
-(*   res        a read of the input resource                                *)
-(*   bogus      navigation that only Permissive mode tolerates              *)
-NGate(k)  == [n |-> "gate", k |-> k, name |-> ""]
-NEnv(x)   == [n |-> "env", k |-> 0, name |-> x]
-NNow      == [n |-> "now", k |-> 0, name |-> ""]
-NToday    == [n |-> "today", k |-> 0, name |-> ""]
-NTod      == [n |-> "tod", k |-> 0, name |-> ""]
-NFn(f)    == [n |-> "fn", k |-> 0, name |-> f]
-NRes      == [n |-> "res", k |-> 0, name |-> ""]
-NBogus    == [n |-> "bogus", k |-> 0, name |-> ""]
-
-FnIdx(prog) == {i \in 1..Len(prog) : prog[i].n = "fn"}
-Resolvable(prog, tbl) == \A i \in FnIdx(prog) : prog[i].name \in DOMAIN tbl
-
-NoExpr == [ok |-> FALSE, prog |-> <<>>, bind |-> EmptyTable, perm |-> FALSE, wrapped |-> FALSE]
-(* What Parse produces from a folded configuration.  fhirpath.Compile drops *)
-(* config.Transform; patch.Compile hands it to the visitor.                 *)
-ParseWith(call, cfg) ==
-  IF cfg.errs > 0 \/ ~Resolvable(call.prog, cfg.tbl) THEN NoExpr
-  ELSE [ok |-> TRUE, prog |-> call.prog,
-        bind |-> [i \in FnIdx(call.prog) |-> cfg.tbl[call.prog[i].name]],
-        perm |-> cfg.perm, wrapped |-> (call.api = "patch" /\ cfg.xform)]
-
-(* The denotation of a Compile call: a function of the call alone. *)
-CompileDen(call, c) == ParseWith(call, FoldCompileOpts(Cfg0(BaseTable), EffOpts(call), c, 1, ExperTable))
-(* The functions an option list makes visible. *)
-VisibleDen(call, c) == DOMAIN FoldCompileOpts(Cfg0(BaseTable), EffOpts(call), c, 1, ExperTable).tbl
-
-(* Evaluate options: [o, name, val, inst, off]; o in time | env *)
-OTime(inst, off) == [o |-> "time", name |-> "", val |-> 0, inst |-> inst, off |-> off]
-OEnv(x, val)     == [o |-> "env", name |-> x, val |-> val, inst |-> 0, off |-> 0]
-
-Instant(inst, off) == [inst |-> inst, off |-> off]
-Env0(r) == ("context" :> r) @@ ("ucum" :> 0)
-Ctx0(env, inst, off) == [now |-> Instant(inst, off), env |-> env, errs |-> 0, t0 |-> inst]
-
-FoldEvalOpt(ctx, opt) ==
-  CASE opt.o = "time" -> [ctx EXCEPT !.now = Instant(opt.inst, opt.off)]
-    [] opt.o = "env"  -> IF opt.name \in DOMAIN ctx.env THEN [ctx EXCEPT !.errs = @ + 1]
-                         ELSE [ctx EXCEPT !.env = (opt.name :> opt.val) @@ ctx.env]
-RECURSIVE FoldEvalOpts(_, _, _)
-FoldEvalOpts(ctx, os, k) == IF k > Len(os) THEN ctx ELSE FoldEvalOpts(FoldEvalOpt(ctx, os[k]), os, k + 1)
-
-(* Result items of the model: [t, s, a, b].                                 *)
-ItInt(i)       == [t |-> "int", s |-> "", a |-> i, b |-> 0]
-ItTime(f, now) == [t |-> f, s |-> "", a |-> now.inst, b |-> now.off]
-ItFn(impl)     == [t |-> "fn", s |-> impl.src, a |-> impl.c, b |-> impl.k]
-ItRes(r)       == [t |-> "res", s |-> "", a |-> r, b |-> 0]
-ItEmpty        == [t |-> "empty", s |-> "", a |-> 0, b |-> 0]
-ItErr(cls)     == [t |-> "err", s |-> cls, a |-> 0, b |-> 0]
-IsTimeItem(x)  == x.t \in {"now", "today", "tod"}
-
-(* One node of expression ex evaluated in context ctx on resource r; `now`  *)
-(* is the instant the time functions use.                                   *)
-NodeItem(node, idx, ex, ctx, r, now) ==
-  CASE node.n = "gate"  -> ItInt(node.k)
-    [] node.n = "env"   -> IF node.name \in DOMAIN ctx.env THEN ItInt(ctx.env[node.name]) ELSE ItErr("ConstantNotFound")
-    [] node.n \in {"now", "today", "tod"} -> ItTime(node.n, now)
-    [] node.n = "fn"    -> ItFn(ex.bind[idx])
-    [] node.n = "res"   -> ItRes(r)
-    [] node.n = "bogus" -> IF ex.perm THEN ItEmpty ELSE ItErr("InvalidField")
-
-OkRes(items) == [k |-> "ok", items |-> items]
-ErrRes       == [k |-> "err", items |-> <<>>]
-NoRes        == [k |-> "none", items |-> <<>>]
-
-RECURSIVE DenNodes(_, _, _, _, _)
-DenNodes(ex, ctx, r, i, acc) ==
-  IF i > Len(ex.prog) THEN OkRes(acc)
-  ELSE LET it == NodeItem(ex.prog[i], i, ex, ctx, r, ctx.now)
-       IN IF it.t = "err" THEN ErrRes ELSE DenNodes(ex, ctx, r, i + 1, Append(acc, it))
-
-(* The denotation of an Evaluate call: a function of the expression (itself *)
-(* a function of text and compile options), the input, the evaluate options *)
-(* and the instant at which the call started - nothing else.                *)
-EvalDen(ex, call, t0) ==
-  LET ctx == FoldEvalOpts(Ctx0(Env0(call.r), t0, 0), call.opts, 1)
-  IN IF ctx.errs > 0 THEN ErrRes ELSE DenNodes(ex, ctx, call.r, 1, <<>>)
-
-(* The instant an evaluation must use: the last OverrideTime, else t0 in UTC *)
-RECURSIVE InstantDen(_, _, _)
-InstantDen(os, k, cur) == IF k > Len(os) THEN cur
-                          ELSE InstantDen(os, k + 1, IF os[k].o = "time" THEN Instant(os[k].inst, os[k].off) ELSE cur)
+          Grain,        \* "node": one step per node; "gate": one step runs up to the next gate
+          KeepHist      \* TRUE: hist records every step (generators); FALSE: hist stays empty
 
 ----------------------------------------------------------------------------
 (* MACHINE LAYER *)
@@ -207,7 +77,19 @@ Init ==
   /\ cache = EmptyTable
   /\ last = NoStep /\ hist = <<>>
 
-Took(s) == last' = s /\ hist' = Append(hist, s)
+(* the calls are fixed at the start (model checking: Begin is not a critical section) *)
+InitChosen ==
+  /\ base = BaseTable /\ exper = ExperTable /\ sharedEnv = EmptyTable
+  /\ tz \in TZs /\ clock = 0 /\ ticks = 0
+  /\ cs \in [CSlots -> {[IdleC EXCEPT !.pc = "begun", !.call = call] : call \in UNION {CompileMenu[c] : c \in CSlots}}]
+  /\ \A c \in CSlots : cs[c].call \in CompileMenu[c]
+  /\ exprs = EmptyTable
+  /\ es \in [VSlots -> {[IdleE EXCEPT !.pc = "begun", !.call = call] : call \in UNION {EvalMenu[v] : v \in VSlots}}]
+  /\ \A v \in VSlots : es[v].call \in EvalMenu[v]
+  /\ cache = EmptyTable
+  /\ last = NoStep /\ hist = <<>>
+
+Took(s) == last' = s /\ hist' = IF KeepHist THEN Append(hist, s) ELSE hist
 
 (* the table a Compile call works on: its own copy, or (mutant) the base *)
 TblOf(c) == IF cs[c].shared THEN base ELSE cs[c].cfg.tbl
@@ -215,7 +97,6 @@ CfgView(c) == [cs[c].cfg EXCEPT !.tbl = TblOf(c)]
 
 BeginCompileWith(c, call) ==
   /\ cs[c].pc = "idle"
-  /\ Sequential => \A d \in CSlots : d < c => cs[d].pc \in {"done", "failed"}
   /\ cs' = [cs EXCEPT ![c] = [IdleC EXCEPT !.pc = "begun", !.call = call]]
   /\ Took(Step("BeginCompile", c, 0))
   /\ UNCHANGED <<base, exper, sharedEnv, tz, clock, ticks, exprs, es, cache>>
@@ -223,6 +104,7 @@ BeginCompile(c) == cs[c].pc = "idle" /\ \E call \in CompileMenu[c] : BeginCompil
 
 CloneTable(c) ==
   /\ cs[c].pc = "begun"
+  /\ Sequential => \A d \in CSlots : d < c => cs[d].pc \in {"done", "failed"}
   /\ cs' = [cs EXCEPT ![c].pc = "cloned",
                       ![c].shared = (Mutant = "sharedTable"),
                       ![c].cfg = Cfg0(IF Mutant = "sharedTable" THEN EmptyTable ELSE base)]
@@ -258,7 +140,7 @@ ReturnCompile(c) ==
   /\ UNCHANGED <<base, exper, sharedEnv, tz, clock, ticks, exprs, es, cache>>
 
 BeginEvalWith(v, call) ==
-  /\ es[v].pc = "idle" /\ call.eid \in DOMAIN exprs
+  /\ es[v].pc = "idle"
   /\ es' = [es EXCEPT ![v] = [IdleE EXCEPT !.pc = "begun", !.call = call]]
   /\ Took(Step("BeginEval", v, 0))
   /\ UNCHANGED <<base, exper, sharedEnv, tz, clock, ticks, cs, exprs, cache>>
@@ -268,7 +150,7 @@ EnvOf(v) == IF Mutant = "sharedEnv" THEN sharedEnv ELSE es[v].ctx.env
 CtxView(v) == [es[v].ctx EXCEPT !.env = EnvOf(v)]
 
 EvalInit(v) ==
-  /\ es[v].pc = "begun"
+  /\ es[v].pc = "begun" /\ es[v].call.eid \in DOMAIN exprs
   /\ LET env0 == Env0(es[v].call.r)
      IN /\ es' = [es EXCEPT ![v].pc = "inited",
                             ![v].ctx = Ctx0(IF Mutant = "sharedEnv" THEN EmptyTable ELSE env0,
@@ -287,14 +169,14 @@ ApplyEvalOpt(v) ==
         /\ Took(Step("ApplyEvalOpt", v, k))
   /\ UNCHANGED <<base, exper, tz, clock, ticks, cs, exprs, cache>>
 
-(* all options applied: either the accumulated error ends the call or the root node starts *)
-StartRun(v) ==
-  /\ es[v].pc = "inited" /\ es[v].k = Len(es[v].call.opts)
-  /\ IF es[v].ctx.errs > 0 /\ Mutant # "firstErrorOnly"
-       THEN es' = [es EXCEPT ![v].pc = "failed", ![v].res = ErrRes, ![v].t1 = clock]
-       ELSE es' = [es EXCEPT ![v].pc = "running", ![v].n = 1]
-  /\ Took(Step("StartRun", v, 0))
+(* all options applied: the accumulated error ends the call before any node runs *)
+OptsDone(v) == es[v].pc = "inited" /\ es[v].k = Len(es[v].call.opts)
+FailOnOptionError(v) ==
+  /\ OptsDone(v) /\ es[v].ctx.errs > 0 /\ Mutant # "firstErrorOnly"
+  /\ es' = [es EXCEPT ![v].pc = "failed", ![v].res = ErrRes, ![v].t1 = clock]
+  /\ Took(Step("FailOnOptionError", v, 0))
   /\ UNCHANGED <<base, exper, sharedEnv, tz, clock, ticks, cs, exprs, cache>>
+Runnable(v) == es[v].pc = "running" \/ (OptsDone(v) /\ (es[v].ctx.errs = 0 \/ Mutant = "firstErrorOnly"))
 
 (* One node.  st is the evaluation's state, ch the node cache; returns both. *)
 NodeOnce(v, st, ch) ==
@@ -308,9 +190,9 @@ NodeOnce(v, st, ch) ==
   IN IF it.t = "err"
        THEN [st |-> [st EXCEPT !.pc = "failed", !.res = ErrRes, !.t1 = clock], ch |-> nch]
        ELSE IF i = Len(ex.prog)
-              THEN [st |-> [st EXCEPT !.pc = "done", !.acc = Append(@, it), !.n = i + 1,
-                                      !.res = OkRes(Append(st.acc, it)), !.t1 = clock], ch |-> nch]
-              ELSE [st |-> [st EXCEPT !.acc = Append(@, it), !.n = i + 1], ch |-> nch]
+              THEN [st |-> [st EXCEPT !.pc = "done", !.acc = AddItem(@, it), !.n = i + 1,
+                                      !.res = OkRes(AddItem(st.acc, it)), !.t1 = clock], ch |-> nch]
+              ELSE [st |-> [st EXCEPT !.acc = AddItem(@, it), !.n = i + 1], ch |-> nch]
 
 (* Grain = "gate": keep going until the node just evaluated was a gate or the call ended *)
 RECURSIVE NodeRun(_, _, _)
@@ -321,10 +203,10 @@ NodeRun(v, st, ch) ==
      ELSE NodeRun(v, r.st, r.ch)
 
 NodeStep(v) ==
-  /\ es[v].pc = "running"
-  /\ LET r == NodeRun(v, es[v], cache)
+  /\ Runnable(v)
+  /\ LET r == NodeRun(v, [es[v] EXCEPT !.pc = "running", !.n = IF es[v].pc = "running" THEN @ ELSE 1], cache)
      IN es' = [es EXCEPT ![v] = r.st] /\ cache' = r.ch
-  /\ Took(Step("NodeStep", v, es[v].n))
+  /\ Took(Step("NodeStep", v, IF es[v].pc = "running" THEN es[v].n ELSE 1))
   /\ UNCHANGED <<base, exper, sharedEnv, tz, clock, ticks, cs, exprs>>
 
 ReturnEval(v) ==
@@ -340,9 +222,10 @@ Tick ==
   /\ UNCHANGED <<base, exper, sharedEnv, tz, cs, exprs, es, cache>>
 
 CompileStep(c) == BeginCompile(c) \/ CloneTable(c) \/ ApplyCompileOpt(c) \/ Parse(c)
-EvalStep(v) == BeginEval(v) \/ EvalInit(v) \/ ApplyEvalOpt(v) \/ StartRun(v) \/ NodeStep(v)
+EvalStep(v) == BeginEval(v) \/ EvalInit(v) \/ ApplyEvalOpt(v) \/ FailOnOptionError(v) \/ NodeStep(v)
 Next == (\E c \in CSlots : CompileStep(c)) \/ (\E v \in VSlots : EvalStep(v)) \/ Tick
 Spec == Init /\ [][Next]_vars
+SpecChosen == InitChosen /\ [][Next]_vars
 
 ----------------------------------------------------------------------------
 (* PROPERTIES (C04) *)
@@ -405,5 +288,6 @@ OptionErrorBlocksEval ==
 TypeOK ==
   /\ \A c \in CSlots : cs[c].pc \in {"idle", "begun", "cloned", "done", "failed"}
   /\ \A v \in VSlots : es[v].pc \in {"idle", "begun", "inited", "running", "done", "failed"}
+  /\ \A v \in VSlots : es[v].pc = "running" => es[v].n \in 1..Len(exprs[es[v].call.eid].prog)
   /\ clock \in 0..MaxTicks
 =============================================================================
